@@ -39,6 +39,13 @@ RULES = {
                               {"s": 0, "op": "max", "e": "x", "signed": True, "extra": []}, A("x != 9", 1),
                               {"s": 1, "op": "max", "e": "x", "signed": False, "extra": []}, {"s": 0, "op": "max", "e": "x", "signed": False, "extra": []}],
     "independent-variables": [A("ULT(x, 3)"), A("y == 6"), B(), A("z == y", 1), A("ULT(z, 2)", 0), E("z", 20, 0), E("z", 20, 1), E("y", 20, 0)],
+    # a solver that holds NOTHING yet is branched; the very first constraint of one side pins x (a shape the frontends treat
+    # specially: the model is known without asking Z3), the other side gets a range, learns one model and is asked for all
+    "empty-branched-child-pinned": [B(), A("x == 5", 1), A("ULE(x, 11)", 0), {"s": 0, "op": "satisfiable", "extra": []}, E("x", 20, 0),
+                                    {"s": 0, "op": "max", "e": "x", "signed": False, "extra": []},
+                                    {"s": 0, "op": "min", "e": "x", "signed": False, "extra": []}, E("x", 20, 1)],
+    "empty-branched-parent-pinned": [B(), B(), A("y == 6", 0), A("SLT(y, 0)", 1), E("y", 2, 1), E("y", 20, 1), A("ULT(x, 3)", 2), A("x == 2", 2),
+                                     {"s": 1, "op": "min", "e": "y", "signed": False, "extra": []}, E("x", 20, 2), E("y", 20, 0), E("y", 20, 2)],
 }
 
 
@@ -53,6 +60,12 @@ def jobs_for(ctx, classes, mult=1):
         for i in range(n):
             jobs.append({"cls": cls, "cfg": {"track": cls != "SolverReplacement" and i % 6 == 0, "reuse": i % 3 == 0},
                          "len": lens[i % len(lens)], "gen": {"weights": WEIGHTS, "max_solvers": 5}})
+        # trees that start from an EMPTY solver: branched before anything was added, the first constraint of one solver is
+        # `variable == constant`, its siblings get other constraints on that variable and are asked for everything; random tail in
+        # which first constraints keep being equalities half of the time
+        for i in range(ctx.pick(14, 100) * mult):
+            jobs.append({"cls": cls, "cfg": {"track": False, "reuse": i % 3 == 0}, "len": ctx.pick(8, 30),
+                         "gen": {"shape": "empty-branch", "weights": WEIGHTS, "max_solvers": 5, "first_eq": 0.5}})
     return jobs
 
 
@@ -115,7 +128,8 @@ def run(ctx):
         "OracleExact and the other C11 hypotheses; recorder; MRO translator",
         "SolverComposite / SolverHybrid / SolverReplacement: oracle and lineage projection only (their frontends are modelled with C12/C13)",
     ]
-    ctx.cov["rule"] = ("trees of up to 5 solvers grown by branch() with interleaved adds, queries, simplify and downsize on all of them; classes Solver, "
+    ctx.cov["rule"] = ("trees of up to 5 solvers grown by branch() with interleaved adds, queries, simplify and downsize on all of them, a part of them "
+                       "grown from a solver branched while still EMPTY whose first constraints are `variable == constant`; classes Solver, "
                        "SolverCacheless, SolverStrings (with model correspondence incl. the sharing graph of Z3 objects) and SolverComposite, SolverHybrid, "
                        "SolverReplacement (oracle); a wrong answer counts as an isolation failure iff the solver answers correctly when run alone along its "
                        "lineage; a further stream makes the calls of such trees from two or three threads, strictly one after the other (oracle only); "
